@@ -28,6 +28,8 @@ def run(an: Analysis, rep):
     rep.rule("R08.4", "constant key: every leaf type, type-/sign-/NaN-exact, recursive", 9)
     from .common import purity
     rep.run(purity, an, rep, "R08.P", ["constant_eq", "from_json", "from_code", "normalize"])
+    from .common import assert_guard_rule as _agrx
+    rep.run(_agrx, an, rep, "R08.G", ["constant_eq", "from_json", "from_code", "normalize"])
     for fn in (r081, r082, r083, r084):
         rep.run(fn, an, rep)
     from . import c03 as _c03k
